@@ -19,8 +19,8 @@ SCOPE = {"quick": "1-D, n_threads=1: every array over {NaN,-2,0.5,3} of length 1
                   "1-D, threads: every array over {NaN,-2,3} of length 1..4 (float64), {-2,1,3} of length 1..3 (int64), length<=2 (float32/int32) x every distinct chunk layout (n_threads 2..len+1 and 8) x 7 reducers; "
                   "lengths 5,7,12 with a NaN block or a non-NaN block at every position x n_threads {2,3,5} x {sum,mean,min,max,std}; "
                   "2-D: every float array over {NaN,-2,0.5,3} with rows*cols<=4, 2x3/3x2 over {NaN,-2,3}, int arrays over {-2,1,3} up to 2x2, axis 0/1, sum/min/max at n_threads=1; shapes <=2x2 over {NaN,-2,3} at n_threads=2; "
-                  "nb_dot: a of shape r x c (r 0..2, c 1..2; 3x1, 1x3) over 3-letter alphabets x b over 3 letters x dtype pairs {int,float(with NaN),bool,mixed int/float columns (2-letter alphabets)}x{int,float} x {ndarray (3-letter alphabets), pandas, polars (2-letter alphabets)}; "
-                  "bools_to_categorical: every boolean frame with 0..4 rows x 1..3 columns (default options) and every frame <= 2x3 with custom sep / na_rep / non-default index, <= 3x3 with allow_duplicates=False; na_rep clash <= 2x2; "
+                  "nb_dot: a of shape r x c (r 0..2, c 1..2; 3x1, 1x3) over 3-letter alphabets x b over 3 letters x dtype pairs {int,float(with NaN),bool,mixed int/float columns (2-letter alphabets)}x{int,float} + integers beyond 2^53 x int (compared exactly) x {ndarray (3-letter alphabets), pandas, polars (2-letter alphabets)}; "
+                  "bools_to_categorical: every boolean frame with 0..4 rows x 1..3 columns (default options) and every frame <= 2x3 with custom sep / na_rep / non-default index, <= 3x3 with allow_duplicates=False; na_rep clash <= 2x2; designed frames of 54 / 55 / 62 columns; "
                   "pretty_cut: every strictly increasing bin set of 1..3 edges from a 7-point grid x all 7 grid values (+NaN) x {int,float} values x {int,float} edges x {ndarray, pandas Series, polars Series}, bins also given reversed; seeded random 1-D arrays of length 6..12",
          "thorough": "as quick with 1-D single-thread enumeration one element longer, threaded enumeration over the 4-letter alphabet up to length 5 (float64) / 4 (int64) / 3 (32-bit), block patterns for every length 5..12 x 2 value rotations x n_threads {2,3,4,5,7,8}, "
                      "2-D rows*cols<=6 (threads 2,3 up to 3x2), nb_dot up to 3x2/2x3, pretty_cut with up to 4 edges, random arrays up to length 40"}
@@ -103,7 +103,8 @@ def _c_nan2d(tier):
     return C.roundrobin(gen_single(), gen_threads(), weights=(8, 1))
 
 
-DOT_A = {"int": [-1, 0, 2], "float": [-1.5, 0.5, None], "bool": [False, True], "mixed": [-1, 2]}
+DOT_A = {"int": [-1, 0, 2], "float": [-1.5, 0.5, None], "bool": [False, True], "mixed": [-1, 2],
+         "bigint": [2 ** 53 + 1, -(2 ** 60 + 3), 3]}        # integers that float64 cannot hold: an integer product is exact (as NumPy's is), not routed through floats
 DOT_B = {"int": [-1, 0, 2], "float": [-0.5, 0.25, 2.5]}
 
 def _c_dot(tier):
@@ -119,7 +120,7 @@ def _c_dot(tier):
                 for flat in itertools.product(DOT_A[akind][-2:] if small else DOT_A[akind], repeat=r * c):
                     for b in itertools.product(DOT_B[bkind][:2] if (small or (c == 3 and not big)) else DOT_B[bkind], repeat=c):
                         yield {"k": "dot", "akind": akind, "bkind": bkind, "a": [list(flat[i * c:(i + 1) * c]) for i in range(r)], "ncols": c, "b": list(b), "cont": cont}
-    return C.roundrobin(*[gen(a, b) for a in ("int", "float", "bool", "mixed") for b in ("int", "float")])
+    return C.roundrobin(*[gen(a, b) for a in ("int", "float", "bool", "mixed") for b in ("int", "float")], gen("bigint", "int"))
 
 
 def _c_b2c(tier):
@@ -147,6 +148,14 @@ def cases(tier, seed):
     return C.roundrobin(_c_nan1d_single(tier), _c_nan1d_threads(tier), _c_nan1d_blocks(tier), _c_nan2d(tier), _c_dot(tier), _c_b2c(tier), _c_cut(tier), weights=(8, 2, 2, 5, 29, 8, 1))      # round length 55: coprime with the 16 shards, so every shard sees every stream
 
 
+def extra_cases(tier, seed):
+    """wide boolean frames: bools_to_categorical encodes a row as an integer with one bit per column (exact only if the integer product is) - 54..62 columns, first and last column true"""
+    out = []
+    for c in (54, 55, 62):
+        out.append({"k": "b2c", "rows": [[j in (0, c - 1) for j in range(c)], [j == c - 1 for j in range(c)], [False] * c], "ncols": c, "opt": "default"})
+    return out
+
+
 def random_case(rnd, tier):
     n = rnd.randint(6, 40 if tier == "thorough" else 12); dtype = rnd.choice(["float64", "float64", "float32", "int64", "int32"])
     alpha = F_ALPHA if dtype.startswith("float") else I_ALPHA
@@ -172,6 +181,8 @@ def _close(got, exp, rtol):
         g = np.asarray(got); e = np.asarray(exp)
         if g.shape != e.shape: return f"shape {g.shape} != {e.shape}"
         if g.dtype.kind not in "fiub" or e.dtype.kind not in "fiub": return None if (g.dtype.kind == e.dtype.kind and np.array_equal(g, e)) else f"result kind {g.dtype} vs {e.dtype}"
+        if g.dtype.kind in "iu" and e.dtype.kind in "iu":          # integer results are compared as integers (float64 would hide a difference beyond 2^53)
+            return None if np.array_equal(g.astype(object), e.astype(object)) else "integer value differs"
         g = g.astype(np.float64).ravel(); e = e.astype(np.float64).ravel()
     except Exception as ex:
         return f"uncomparable result {got!r}: {type(ex).__name__}"
@@ -243,7 +254,7 @@ def _check_nan2d(sess, case):
 def _dot_operands(case):
     import polars as pl
     akind, c = case["akind"], case["ncols"]; rows = case["a"]; r = len(rows)
-    col_dtypes = [{"int": np.int64, "float": np.float64, "bool": np.bool_}.get(akind) or (np.int64 if j % 2 == 0 else np.float64) for j in range(c)]
+    col_dtypes = [{"int": np.int64, "bigint": np.int64, "float": np.float64, "bool": np.bool_}.get(akind) or (np.int64 if j % 2 == 0 else np.float64) for j in range(c)]
     cols = [np.array([(np.nan if rows[i][j] is None else rows[i][j]) for i in range(r)], dtype=col_dtypes[j]) for j in range(c)]
     dense = np.empty((r, c), dtype=np.result_type(*col_dtypes))
     for j in range(c): dense[:, j] = cols[j]
@@ -276,7 +287,7 @@ def _check_dot(sess, case):
 
 def _check_b2c(sess, case):
     from groupby_lib import util
-    c = case["ncols"]; rows = case["rows"]; r = len(rows); names = ["A", "B", "C"][:c]; opt = case["opt"]
+    c = case["ncols"]; rows = case["rows"]; r = len(rows); names = ["A", "B", "C"][:c] if c <= 3 else [f"c{j}" for j in range(c)]; opt = case["opt"]
     df = pd.DataFrame({names[j]: np.array([rows[i][j] for i in range(r)], dtype=bool) for j in range(c)})
     kw = {}; sep, na_rep = " & ", "None"
     if opt == "sep": kw["sep"] = sep = "|"
